@@ -520,16 +520,23 @@ fn controller(world: World, obs: SharedObs) -> Result<(), Violation> {
     // counter) must show at least one of them to the debug hook (H5b probe) - otherwise every later breakpoint,
     // pause and step would silently do nothing, in the twin and in the debugged run alike
     let mut coverage: Vec<(usize, u64)> = vec![];
+    // every statement the interpreter executes (H2b counter in exec_stmt) must be shown to the attached debug hook
+    // (H5b probe): a statement that runs unseen can be neither stepped into, nor paused on, nor hit by a breakpoint
+    let mut unseen: Option<(usize, u64, usize)> = None;
     let results = guard_in_task("twin run", || {
         let mut out = vec![];
         for i in 0..cycles {
             twin.set_current_time(Duration::from_millis(dt_ms * i as i64));
-            let (p0, b0) = (probe::len(), verif_hooks::budget::executed());
+            let (p0, b0, s0) = (probe::len(), verif_hooks::budget::executed(), verif_hooks::budget::statements());
             out.push(match twin.execute_cycle() {
                 Ok(()) => "ok".to_string(),
                 Err(e) => format!("err:{e}"),
             });
             coverage.push((probe::len() - p0, verif_hooks::budget::executed() - b0));
+            let (seen, stmts) = (probe::len() - p0, verif_hooks::budget::statements() - s0);
+            if unseen.is_none() && stmts != seen as u64 {
+                unseen = Some((i as usize, stmts, seen));
+            }
         }
         out
     })?;
@@ -537,6 +544,12 @@ fn controller(world: World, obs: SharedObs) -> Result<(), Violation> {
         return Err(Violation::new(
             "hook/detached",
             format!("cycle {cycle} of the command-free run executed {executed} statement/loop points but none reached the debug hook: the debugger is no longer attached (per cycle (seen, executed): {coverage:?})"),
+        ));
+    }
+    if let Some((cycle, stmts, seen)) = unseen {
+        return Err(Violation::new(
+            "hook/statement-not-reported",
+            format!("cycle {cycle} of the command-free run executed {stmts} statements but the attached debug hook was shown {seen}: statements run where the debugger cannot stop"),
         ));
     }
     // every statement the interpreter executes must reach the hook WITH its source location: a statement without
